@@ -38,7 +38,10 @@ SeqToSet(s)    == {s[j] : j \in 1..Len(s)}
 (* Components, user functions *)
 
 DigestComp == "sha256digest=0"      \* abstract stand-in for an ImplicitSha256DigestComponent
+ParamsDigestComp == "params-sha256=0000000000000000000000000000000000000000000000000000000000000000"
+                                    \* a ParametersSha256DigestComponent: an ordinary component (never stripped), of its own type
 TypeOf(c) == IF c = DigestComp THEN "d"
+             ELSE IF c = ParamsDigestComp THEN "pd"
              ELSE IF Len(c) >= 2 /\ SubSeq(c, 1, 2) = "v=" THEN "v"
              ELSE "g"
 StripDigest(n) == IF Len(n) > 0 /\ n[Len(n)] = DigestComp THEN SubSeq(n, 1, Len(n) - 1) ELSE n
